@@ -256,9 +256,100 @@ impl VersionSet for Vs {
     type V = u32;
 }
 
+/// A record wider than a cache line: arenas that reserve by bytes instead of by element
+/// count, or that memcpy on growth, show with these and not with a `u32`.
+#[derive(Clone, Debug, PartialEq, Eq, Hash)]
+pub struct FatRec(pub [u64; 20]);
+impl std::fmt::Display for FatRec {
+    fn fmt(&self, f: &mut std::fmt::Formatter<'_>) -> std::fmt::Result {
+        write!(f, "fat{}", self.0[0])
+    }
+}
+#[derive(Clone, Debug, PartialEq, Eq, Hash)]
+pub struct FatVs(pub [u64; 12], pub u32);
+impl VersionSet for FatVs {
+    type V = FatRec;
+}
+/// A package name whose `Hash` is coarser than its `Eq` (only the base is hashed, like a
+/// `name[feature]` key hashed by name): allowed by the `Hash` contract, and the pool must
+/// still tell the two apart.
+#[derive(Clone, Debug, PartialEq, Eq)]
+pub struct FeatName {
+    pub base: u32,
+    pub feat: u32,
+    pub pad: [u64; 9],
+}
+impl std::hash::Hash for FeatName {
+    fn hash<H: std::hash::Hasher>(&self, h: &mut H) {
+        self.base.hash(h)
+    }
+}
+
+pub trait Flavor {
+    type Vs: VersionSet<V = Self::Rec> + std::fmt::Debug + 'static;
+    type Name: Clone + Eq + std::hash::Hash + std::fmt::Debug + 'static;
+    type Rec: Clone + PartialEq + std::fmt::Debug + std::fmt::Display + 'static;
+    fn vs(v: u32) -> Self::Vs;
+    fn name(v: u32) -> Self::Name;
+    fn rec(v: u32) -> Self::Rec;
+    fn string(v: u32) -> String;
+}
+pub struct Plain;
+impl Flavor for Plain {
+    type Vs = Vs;
+    type Name = String;
+    type Rec = u32;
+    fn vs(v: u32) -> Vs {
+        Vs(v)
+    }
+    fn name(v: u32) -> String {
+        format!("name{v}")
+    }
+    fn rec(v: u32) -> u32 {
+        v
+    }
+    fn string(v: u32) -> String {
+        format!("str{v}")
+    }
+}
+pub struct Fat;
+impl Flavor for Fat {
+    type Vs = FatVs;
+    type Name = FeatName;
+    type Rec = FatRec;
+    fn vs(v: u32) -> FatVs {
+        let mut a = [0x5a5a_5a5a_5a5a_5a5au64; 12];
+        a[11] = v as u64; // equal prefixes, the difference is in the last word
+        FatVs(a, v / 2)
+    }
+    fn name(v: u32) -> FeatName {
+        FeatName {
+            base: v / 3,
+            feat: v % 3,
+            pad: [v as u64; 9],
+        }
+    }
+    fn rec(v: u32) -> FatRec {
+        let mut a = [v as u64 ^ 0xdead_beef; 20];
+        a[0] = v as u64;
+        a[19] = !(v as u64);
+        FatRec(a)
+    }
+    fn string(v: u32) -> String {
+        // a third are short, the others 64..200 bytes with a long common prefix and the
+        // distinguishing part at the very end
+        match v % 3 {
+            0 => format!("s{v}"),
+            1 => format!("{}{v}", "a-rather-long-common-prefix/".repeat(3)),
+            _ => format!("{}{v}", "x".repeat(64 + (v as usize % 130))),
+        }
+    }
+}
+
 pub struct C18 {
     pub stage: &'static str,
     pub max_ops: usize,
+    pub fat: bool,
 }
 
 #[derive(Clone, Debug)]
@@ -321,9 +412,223 @@ impl C18 {
 
 struct Held {
     what: String,
-    ptr: *const u8,
-    len: usize,
-    expect: Vec<u8>,
+    /// re-reads the value through the saved address and compares it with a saved clone
+    still_reads: Box<dyn Fn() -> bool>,
+    addr: usize,
+}
+
+fn hold<T: Clone + PartialEq + 'static>(what: String, r: &T) -> Held {
+    let p = r as *const T;
+    let e = r.clone();
+    Held {
+        what,
+        still_reads: Box::new(move || unsafe { &*p } == &e),
+        addr: p as usize,
+    }
+}
+fn hold_str(what: String, r: &str) -> Held {
+    let (p, l) = (r.as_ptr(), r.len());
+    let e = r.as_bytes().to_vec();
+    Held {
+        what,
+        still_reads: Box::new(move || unsafe { std::slice::from_raw_parts(p, l) } == &e[..]),
+        addr: p as usize,
+    }
+}
+
+fn c18_history<F: Flavor>(ops: &[POp]) -> Result<(usize, usize), Failure> {
+    let pool: Pool<F::Vs, F::Name> = Pool::new();
+    let mut strings: Vec<String> = vec![];
+    let mut string_ids: HashMap<String, u32> = HashMap::new();
+    let mut names: Vec<F::Name> = vec![];
+    let mut name_ids: HashMap<F::Name, u32> = HashMap::new();
+    let mut vsets: Vec<(u32, F::Vs)> = vec![];
+    let mut vset_ids: HashMap<(u32, F::Vs), u32> = HashMap::new();
+    let mut solvables: Vec<(u32, F::Rec)> = vec![];
+    let mut unions: Vec<Vec<u32>> = vec![];
+    let mut held: Vec<Held> = vec![];
+    let mut boundaries = 0usize;
+    let mut held_across = 0usize;
+    let bad = |sig: &str, detail: String| Failure {
+        signature: format!("C18:{sig}"),
+        detail,
+    };
+    for (i, op) in ops.iter().enumerate() {
+        let ctx = format!("op #{i} {op:?}");
+        let before = strings.len() / 128 + names.len() / 128 + vsets.len() / 128 + solvables.len() / 128;
+        match op {
+            POp::InternString(v) => {
+                let s = F::string(*v);
+                let id = pool.intern_string(s.clone());
+                let want = *string_ids.entry(s.clone()).or_insert_with(|| {
+                    strings.push(s.clone());
+                    strings.len() as u32 - 1
+                });
+                if id != StringId(want) {
+                    return Err(bad("string-id", format!("{ctx}: got {id:?}, expected id {want}")));
+                }
+                let r: &str = pool.resolve_string(id);
+                if r != s {
+                    return Err(bad("resolve-string", format!("{ctx}: resolves to {r:?}")));
+                }
+                held.push(hold_str(format!("string {want}"), r));
+            }
+            POp::InternName(v) => {
+                let s = F::name(*v);
+                let id = pool.intern_package_name(s.clone());
+                let want = *name_ids.entry(s.clone()).or_insert_with(|| {
+                    names.push(s.clone());
+                    names.len() as u32 - 1
+                });
+                if id != NameId(want) {
+                    return Err(bad("name-id", format!("{ctx}: got {id:?}, expected id {want}")));
+                }
+                let r: &F::Name = pool.resolve_package_name(id);
+                if *r != s {
+                    return Err(bad("resolve-name", format!("{ctx}: resolves to {r:?}")));
+                }
+                held.push(hold(format!("name {want}"), r));
+            }
+            POp::LookupName(v) => {
+                let s = F::name(*v);
+                let got = pool.lookup_package_name(&s);
+                let want = name_ids.get(&s).map(|&i| NameId(i));
+                if got != want {
+                    return Err(bad("lookup-name", format!("{ctx}: got {got:?}, expected {want:?}")));
+                }
+            }
+            POp::InternVs(n, v) => {
+                if names.is_empty() {
+                    continue;
+                }
+                let name = *n % names.len() as u32;
+                let vs = F::vs(*v);
+                let id = pool.intern_version_set(NameId(name), vs.clone());
+                let want = *vset_ids.entry((name, vs.clone())).or_insert_with(|| {
+                    vsets.push((name, vs.clone()));
+                    vsets.len() as u32 - 1
+                });
+                if id != VersionSetId(want) {
+                    return Err(bad("version-set-id", format!("{ctx}: got {id:?}, expected id {want}")));
+                }
+                let r: &F::Vs = pool.resolve_version_set(id);
+                if *r != vs || pool.resolve_version_set_package_name(id) != NameId(name) {
+                    return Err(bad("resolve-version-set", format!("{ctx}: resolves to {r:?}")));
+                }
+                held.push(hold(format!("version set {want}"), r));
+            }
+            POp::InternSolvable(n, rec) => {
+                if names.is_empty() {
+                    continue;
+                }
+                let name = *n % names.len() as u32;
+                let record = F::rec(*rec);
+                let id = pool.intern_solvable(NameId(name), record.clone());
+                solvables.push((name, record.clone()));
+                let want = solvables.len() as u32 - 1;
+                if id != SolvableId(want) {
+                    return Err(bad("solvable-id", format!("{ctx}: got {id:?}, expected fresh dense id {want}")));
+                }
+                let r = pool.resolve_solvable(id);
+                if r.name != NameId(name) || r.record != record {
+                    return Err(bad("resolve-solvable", format!("{ctx}: resolves to ({:?},{:?})", r.name, r.record)));
+                }
+                held.push(hold(format!("solvable {want}"), &r.record));
+            }
+            POp::InternUnion(members) => {
+                if vsets.is_empty() {
+                    continue;
+                }
+                let ms: Vec<u32> = members.iter().map(|m| m % vsets.len() as u32).collect();
+                let id = pool.intern_version_set_union(VersionSetId(ms[0]), ms[1..].iter().map(|&m| VersionSetId(m)));
+                unions.push(ms.clone());
+                let want = unions.len() as u32 - 1;
+                if id != VersionSetUnionId(want) {
+                    return Err(bad("union-id", format!("{ctx}: got {id:?}, expected fresh dense id {want}")));
+                }
+                let got: Vec<u32> = pool.resolve_version_set_union(id).map(|v| v.0).collect();
+                if got != ms {
+                    return Err(bad("resolve-union", format!("{ctx}: resolves to {got:?}, expected {ms:?}")));
+                }
+            }
+            POp::ResolveAll => {
+                for (i, s) in strings.iter().enumerate() {
+                    if pool.resolve_string(StringId(i as u32)) != s {
+                        return Err(bad("resolve-string", format!("{ctx}: string {i}")));
+                    }
+                }
+                for (i, s) in names.iter().enumerate() {
+                    if pool.resolve_package_name(NameId(i as u32)) != s || pool.lookup_package_name(s) != Some(NameId(i as u32)) {
+                        return Err(bad("resolve-name", format!("{ctx}: name {i}")));
+                    }
+                }
+                for (i, (n, vs)) in vsets.iter().enumerate() {
+                    let id = VersionSetId(i as u32);
+                    if pool.resolve_version_set(id) != vs || pool.resolve_version_set_package_name(id) != NameId(*n) {
+                        return Err(bad("resolve-version-set", format!("{ctx}: version set {i}")));
+                    }
+                }
+                for (i, (n, r)) in solvables.iter().enumerate() {
+                    let s = pool.resolve_solvable(SolvableId(i as u32));
+                    if s.name != NameId(*n) || s.record != *r {
+                        return Err(bad("resolve-solvable", format!("{ctx}: solvable {i}")));
+                    }
+                }
+                for (i, ms) in unions.iter().enumerate() {
+                    let got: Vec<u32> = pool.resolve_version_set_union(VersionSetUnionId(i as u32)).map(|v| v.0).collect();
+                    if &got != ms {
+                        return Err(bad("resolve-union", format!("{ctx}: union {i}")));
+                    }
+                }
+            }
+        }
+        let after = strings.len() / 128 + names.len() / 128 + vsets.len() / 128 + solvables.len() / 128;
+        if after > before {
+            boundaries += 1;
+            held_across = held_across.max(held.len());
+            // every reference handed out so far must still read the same value
+            for h in &held {
+                if !(h.still_reads)() {
+                    return Err(bad(
+                        "held-reference-changed",
+                        format!("{ctx}: reference to {} no longer reads its value", h.what),
+                    ));
+                }
+            }
+        }
+    }
+    // final: all held references intact and stable addresses
+    for h in &held {
+        if !(h.still_reads)() {
+            return Err(bad("held-reference-changed", format!("final: reference to {} changed", h.what)));
+        }
+    }
+    let by_what: HashMap<&str, usize> = held.iter().map(|h| (h.what.as_str(), h.addr)).collect();
+    for (i, s) in strings.iter().enumerate() {
+        let r = pool.resolve_string(StringId(i as u32));
+        if let Some(&a) = by_what.get(format!("string {i}").as_str()) {
+            if a != r.as_ptr() as usize {
+                return Err(bad("address-moved", format!("string {i} ({s}) moved in memory")));
+            }
+        }
+    }
+    for i in 0..names.len() {
+        let r = pool.resolve_package_name(NameId(i as u32));
+        if let Some(&a) = by_what.get(format!("name {i}").as_str()) {
+            if a != r as *const F::Name as usize {
+                return Err(bad("address-moved", format!("name {i} moved in memory")));
+            }
+        }
+    }
+    for i in 0..solvables.len() {
+        let r = pool.resolve_solvable(SolvableId(i as u32));
+        if let Some(&a) = by_what.get(format!("solvable {i}").as_str()) {
+            if a != &r.record as *const F::Rec as usize {
+                return Err(bad("address-moved", format!("solvable {i} moved in memory")));
+            }
+        }
+    }
+    Ok((boundaries, held_across))
 }
 
 impl Property for C18 {
@@ -337,11 +642,11 @@ impl Property for C18 {
         1500
     }
     fn rule(&self) -> String {
-        "tape -> history of intern_string / intern_package_name / lookup_package_name / intern_version_set / intern_solvable / intern_version_set_union / resolve_* calls on Pool<Vs,String> with values from a small alphabet (frequent re-interning) and fresh values (arenas cross several 128-element chunks, maps rehash), interpreted against HashMap/Vec reference models: equal values share ids, new values get the next dense id, solvable and union ids are always fresh and dense, resolve/lookup return exactly what was interned; REFERENCES (&str, &String, &Vs, &Solvable) obtained from the pool are held across all later insertions and must keep their address and contents. Non-trivial: the history crosses >=2 chunk boundaries with >=10 references held across them. Distinct = distinct hash of the history.".into()
+        "tape -> history of intern_string / intern_package_name / lookup_package_name / intern_version_set / intern_solvable / intern_version_set_union / resolve_* calls on a Pool, with values from a small alphabet (frequent re-interning) and fresh values (arenas cross several 128-element chunks, maps rehash), interpreted against HashMap/Vec reference models: equal values share ids, new values get the next dense id, solvable and union ids are always fresh and dense, resolve/lookup return exactly what was interned; REFERENCES (&str, &Name, &VersionSet, &Solvable) obtained from the pool are held across all later insertions and must keep their address and contents. Stage main uses Pool<Vs(u32),String> with u32 records and short strings; stage fat uses 100..160-byte version sets and records, strings of 64..200 bytes that share long prefixes, and a package-name type whose Hash is coarser than its Eq (legal; the pool must still tell such names apart). Non-trivial: the history crosses >=2 chunk boundaries with >=10 references held across them. Distinct = distinct hash of the history.".into()
     }
     fn describe(&self, tape: &[u16]) -> String {
         let ops = self.decode(tape);
-        format!("{} ops: {:?}\n", ops.len(), &ops[..ops.len().min(60)])
+        format!("{} ops ({}): {:?}\n", ops.len(), if self.fat { "fat flavour" } else { "plain flavour" }, &ops[..ops.len().min(60)])
     }
     fn eval(&self, tape: &[u16]) -> CaseReport {
         let ops = self.decode(tape);
@@ -350,204 +655,8 @@ impl Property for C18 {
             case_hash: hash_of(&format!("{ops:?}")),
             ..Default::default()
         };
-        let res = crate::run::guarded(|| -> Result<(usize, usize), Failure> {
-            let pool: Pool<Vs, String> = Pool::new();
-            let mut strings: Vec<String> = vec![];
-            let mut string_ids: HashMap<String, u32> = HashMap::new();
-            let mut names: Vec<String> = vec![];
-            let mut name_ids: HashMap<String, u32> = HashMap::new();
-            let mut vsets: Vec<(u32, Vs)> = vec![];
-            let mut vset_ids: HashMap<(u32, Vs), u32> = HashMap::new();
-            let mut solvables: Vec<(u32, u32)> = vec![];
-            let mut unions: Vec<Vec<u32>> = vec![];
-            let mut held: Vec<Held> = vec![];
-            let mut boundaries = 0usize;
-            let mut held_across = 0usize;
-            let bad = |sig: &str, detail: String| Failure {
-                signature: format!("C18:{sig}"),
-                detail,
-            };
-            for (i, op) in ops.iter().enumerate() {
-                let ctx = format!("op #{i} {op:?}");
-                let before = strings.len() / 128 + names.len() / 128 + vsets.len() / 128 + solvables.len() / 128;
-                match op {
-                    POp::InternString(v) => {
-                        let s = format!("str{v}");
-                        let id = pool.intern_string(s.clone());
-                        let want = *string_ids.entry(s.clone()).or_insert_with(|| {
-                            strings.push(s.clone());
-                            strings.len() as u32 - 1
-                        });
-                        if id != StringId(want) {
-                            return Err(bad("string-id", format!("{ctx}: got {id:?}, expected id {want}")));
-                        }
-                        let r: &str = pool.resolve_string(id);
-                        if r != s {
-                            return Err(bad("resolve-string", format!("{ctx}: resolves to {r:?}")));
-                        }
-                        held.push(Held {
-                            what: format!("string {want}"),
-                            ptr: r.as_ptr(),
-                            len: r.len(),
-                            expect: s.into_bytes(),
-                        });
-                    }
-                    POp::InternName(v) => {
-                        let s = format!("name{v}");
-                        let id = pool.intern_package_name(s.clone());
-                        let want = *name_ids.entry(s.clone()).or_insert_with(|| {
-                            names.push(s.clone());
-                            names.len() as u32 - 1
-                        });
-                        if id != NameId(want) {
-                            return Err(bad("name-id", format!("{ctx}: got {id:?}, expected id {want}")));
-                        }
-                        let r: &String = pool.resolve_package_name(id);
-                        if *r != s {
-                            return Err(bad("resolve-name", format!("{ctx}: resolves to {r:?}")));
-                        }
-                        held.push(Held {
-                            what: format!("name {want}"),
-                            ptr: r.as_ptr(),
-                            len: r.len(),
-                            expect: s.into_bytes(),
-                        });
-                    }
-                    POp::LookupName(v) => {
-                        let s = format!("name{v}");
-                        let got = pool.lookup_package_name(&s);
-                        let want = name_ids.get(&s).map(|&i| NameId(i));
-                        if got != want {
-                            return Err(bad("lookup-name", format!("{ctx}: got {got:?}, expected {want:?}")));
-                        }
-                    }
-                    POp::InternVs(n, v) => {
-                        if names.is_empty() {
-                            continue;
-                        }
-                        let name = *n % names.len() as u32;
-                        let vs = Vs(*v);
-                        let id = pool.intern_version_set(NameId(name), vs.clone());
-                        let want = *vset_ids.entry((name, vs.clone())).or_insert_with(|| {
-                            vsets.push((name, vs.clone()));
-                            vsets.len() as u32 - 1
-                        });
-                        if id != VersionSetId(want) {
-                            return Err(bad("version-set-id", format!("{ctx}: got {id:?}, expected id {want}")));
-                        }
-                        let r: &Vs = pool.resolve_version_set(id);
-                        if *r != vs || pool.resolve_version_set_package_name(id) != NameId(name) {
-                            return Err(bad("resolve-version-set", format!("{ctx}: resolves to {r:?}")));
-                        }
-                        held.push(Held {
-                            what: format!("version set {want}"),
-                            ptr: r as *const Vs as *const u8,
-                            len: 4,
-                            expect: v.to_ne_bytes().to_vec(),
-                        });
-                    }
-                    POp::InternSolvable(n, rec) => {
-                        if names.is_empty() {
-                            continue;
-                        }
-                        let name = *n % names.len() as u32;
-                        let id = pool.intern_solvable(NameId(name), *rec);
-                        solvables.push((name, *rec));
-                        let want = solvables.len() as u32 - 1;
-                        if id != SolvableId(want) {
-                            return Err(bad("solvable-id", format!("{ctx}: got {id:?}, expected fresh dense id {want}")));
-                        }
-                        let r = pool.resolve_solvable(id);
-                        if r.name != NameId(name) || r.record != *rec {
-                            return Err(bad("resolve-solvable", format!("{ctx}: resolves to ({:?},{})", r.name, r.record)));
-                        }
-                        held.push(Held {
-                            what: format!("solvable {want}"),
-                            ptr: &r.record as *const u32 as *const u8,
-                            len: 4,
-                            expect: rec.to_ne_bytes().to_vec(),
-                        });
-                    }
-                    POp::InternUnion(members) => {
-                        if vsets.is_empty() {
-                            continue;
-                        }
-                        let ms: Vec<u32> = members.iter().map(|m| m % vsets.len() as u32).collect();
-                        let id = pool.intern_version_set_union(VersionSetId(ms[0]), ms[1..].iter().map(|&m| VersionSetId(m)));
-                        unions.push(ms.clone());
-                        let want = unions.len() as u32 - 1;
-                        if id != VersionSetUnionId(want) {
-                            return Err(bad("union-id", format!("{ctx}: got {id:?}, expected fresh dense id {want}")));
-                        }
-                        let got: Vec<u32> = pool.resolve_version_set_union(id).map(|v| v.0).collect();
-                        if got != ms {
-                            return Err(bad("resolve-union", format!("{ctx}: resolves to {got:?}, expected {ms:?}")));
-                        }
-                    }
-                    POp::ResolveAll => {
-                        for (i, s) in strings.iter().enumerate() {
-                            if pool.resolve_string(StringId(i as u32)) != s {
-                                return Err(bad("resolve-string", format!("{ctx}: string {i}")));
-                            }
-                        }
-                        for (i, s) in names.iter().enumerate() {
-                            if pool.resolve_package_name(NameId(i as u32)) != s || pool.lookup_package_name(s) != Some(NameId(i as u32)) {
-                                return Err(bad("resolve-name", format!("{ctx}: name {i}")));
-                            }
-                        }
-                        for (i, (n, vs)) in vsets.iter().enumerate() {
-                            let id = VersionSetId(i as u32);
-                            if pool.resolve_version_set(id) != vs || pool.resolve_version_set_package_name(id) != NameId(*n) {
-                                return Err(bad("resolve-version-set", format!("{ctx}: version set {i}")));
-                            }
-                        }
-                        for (i, (n, r)) in solvables.iter().enumerate() {
-                            let s = pool.resolve_solvable(SolvableId(i as u32));
-                            if s.name != NameId(*n) || s.record != *r {
-                                return Err(bad("resolve-solvable", format!("{ctx}: solvable {i}")));
-                            }
-                        }
-                        for (i, ms) in unions.iter().enumerate() {
-                            let got: Vec<u32> = pool.resolve_version_set_union(VersionSetUnionId(i as u32)).map(|v| v.0).collect();
-                            if &got != ms {
-                                return Err(bad("resolve-union", format!("{ctx}: union {i}")));
-                            }
-                        }
-                    }
-                }
-                let after = strings.len() / 128 + names.len() / 128 + vsets.len() / 128 + solvables.len() / 128;
-                if after > before {
-                    boundaries += 1;
-                    held_across = held_across.max(held.len());
-                    // every reference handed out so far must still read the same bytes
-                    for h in &held {
-                        let bytes = unsafe { std::slice::from_raw_parts(h.ptr, h.len) };
-                        if bytes != &h.expect[..] {
-                            return Err(bad(
-                                "held-reference-changed",
-                                format!("{ctx}: reference to {} no longer reads its value", h.what),
-                            ));
-                        }
-                    }
-                }
-            }
-            // final: all held references intact and stable addresses
-            for h in &held {
-                let bytes = unsafe { std::slice::from_raw_parts(h.ptr, h.len) };
-                if bytes != &h.expect[..] {
-                    return Err(bad("held-reference-changed", format!("final: reference to {} changed", h.what)));
-                }
-            }
-            for (i, s) in strings.iter().enumerate() {
-                let r = pool.resolve_string(StringId(i as u32));
-                if let Some(h) = held.iter().find(|h| h.what == format!("string {i}")) {
-                    if h.ptr != r.as_ptr() {
-                        return Err(bad("address-moved", format!("string {i} ({s}) moved in memory")));
-                    }
-                }
-            }
-            Ok((boundaries, held_across))
-        });
+        let fat = self.fat;
+        let res = crate::run::guarded(|| if fat { c18_history::<Fat>(&ops) } else { c18_history::<Plain>(&ops) });
         match res {
             Ok(Ok((b, h))) => {
                 if b >= 2 {
